@@ -297,12 +297,14 @@ impl ChannelMessageHandler for ChanH {
 		handle_update_fail_malformed_htlc: &msgs::UpdateFailMalformedHTLC,
 		handle_commitment_signed: &msgs::CommitmentSigned, handle_revoke_and_ack: &msgs::RevokeAndACK,
 		handle_update_fee: &msgs::UpdateFee, handle_announcement_signatures: &msgs::AnnouncementSignatures,
-		handle_channel_reestablish: &msgs::ChannelReestablish, handle_channel_update: &msgs::ChannelUpdate,
+		handle_channel_reestablish: &msgs::ChannelReestablish,
 	}
 	fn handle_commitment_signed_batch(&self, _n: PublicKey, _c: ChannelId, _b: Vec<msgs::CommitmentSigned>) {
 		self.0.other("handle_commitment_signed_batch");
 	}
 	fn handle_error(&self, _their_node_id: PublicKey, _msg: &msgs::ErrorMessage) {}
+	// gossip: also shown to the channel handler; the raw peer's junk frames may contain one
+	fn handle_channel_update(&self, _their_node_id: PublicKey, _msg: &msgs::ChannelUpdate) {}
 	fn get_chain_hashes(&self) -> Option<Vec<ChainHash>> {
 		None
 	}
@@ -1131,6 +1133,36 @@ impl Conn {
 		self.raw_push(s, if chan { "chan" } else { "msg" }, id as i64, size, bytes);
 	}
 
+	/// a well-formed frame that is not one of our test messages: an empty / one-byte message, or a
+	/// message of a standard (non channel-handler) type with arbitrary content
+	fn raw_send_junk(&mut self, ty: u64, len: usize, short: bool) {
+		if !self.raw_ready() {
+			self.stats.skipped += 1;
+			return;
+		}
+		let s = self.raw.as_ref().unwrap().0;
+		let enc: Vec<u8> = if short {
+			(0..len.min(1)).map(|_| self.rng.gen()).collect()
+		} else {
+			let mut v = (ty as u16).to_be_bytes().to_vec();
+			match ty {
+				18 => {
+					// ping: ponglen, byteslen, padding
+					let ponglen: u16 = *[0u16, 1, 100, 65531, 65532, 65535].get(self.rng.gen_range(0..6)).unwrap();
+					let pad = len.min(2000);
+					v.extend_from_slice(&ponglen.to_be_bytes());
+					v.extend_from_slice(&(pad as u16).to_be_bytes());
+					v.extend((0..pad).map(|_| 0u8));
+				},
+				_ => v.extend((0..len.min(65533)).map(|_| self.rng.gen::<u8>())),
+			}
+			v
+		};
+		let size = enc.len();
+		let bytes = self.raw_encrypt(&enc);
+		self.raw_push(s, if short { "short" } else { "junk" }, ty as i64, size, bytes);
+	}
+
 	fn raw_send_garbage(&mut self, n: usize, flavour: u64) {
 		let s = match self.raw.as_ref() {
 			Some(r) if self.up[r.0 - 1] => r.0,
@@ -1196,6 +1228,8 @@ impl Conn {
 			"disc" => self.op_disc(gu("s")),
 			"raw_init" => self.raw_send_init(),
 			"raw_garbage" => self.raw_send_garbage(gu("n"), op["flavour"].as_u64().unwrap_or(0)),
+			"raw_junk" => self.raw_send_junk(op["ty"].as_u64().unwrap_or(18), gu("len"), false),
+			"raw_short" => self.raw_send_junk(0, gu("len"), true),
 			"drain" => self.op_drain(),
 			_ => {},
 		}
@@ -1355,6 +1389,18 @@ fn random_script(rng: &mut StdRng) -> Value {
 				}
 			},
 			93..=94 if tampering => ops.push(json!({"op":"disc","s":rng.gen_range(1..=2)})),
+			95..=97 if raw_side != 0 && tampering => {
+				// well-formed frames of other kinds: must never panic the node
+				if rng.gen_bool(0.2) {
+					ops.push(json!({"op":"raw_short","len":rng.gen_range(0..2)}));
+				} else {
+					let ty = [1u64, 17, 18, 18, 19, 101, 102, 256, 257, 258, 261, 263, 264, 265, 513, 32767][rng.gen_range(0..16)];
+					let len = if rng.gen_bool(0.8) { rng.gen_range(0..300) } else { rng.gen_range(300..65534) };
+					ops.push(json!({"op":"raw_junk","ty":ty,"len":len}));
+				}
+				ops.push(json!({"op":"read","d":raw_side,"k":-1}));
+				ops.push(json!({"op":"pe","s":3-raw_side}));
+			},
 			_ => {
 				let d = rng.gen_range(1..=2);
 				ops.push(json!({"op":"read","d":d,"u":rng.gen_range(0..24),"o":rng.gen_range(0..6)}));
